@@ -187,7 +187,8 @@ Definition c06_fdescs_rank (backward : bool) (ni w : nat) (sizes : list (list na
          let (e, f) := ef in
          match c06_find_entry (e_q e) p es with
          | None => None
-         | Some e' => Some (mkFD p (e_q e) f (map (fun i => c06_gather ni w p i (c06_size_of sizes p i)) (c06_send_list backward e))
+         | Some e' => Some (mkFD p (e_q e) f (c06_own_fixed backward sizes es (e_q e) p)
+                                 (map (fun i => c06_gather ni w p i (c06_size_of sizes p i)) (c06_send_list backward e))
                                  (c06_recv_list backward e'))
          end) (combine mine (c06_fixed_sizes backward sizes 1 mine)).
 
@@ -198,7 +199,7 @@ Lemma init_fixed_eq : forall backward fixnew buf ni w np sizes es,
 Proof.
   intros. unfold c06_init, c06_fdescs, fixed_cfg.
   assert (L : forall p, c06_links_of_rank false backward buf ni w sizes es p =
-                        map (option_map (fun d => c06_link_init_fixed buf (d_src d) (d_dst d) (d_f d) (d_entries d) (d_ridx d)))
+                        map (option_map (fun d => c06_link_init_fixed buf (d_src d) (d_dst d) (d_f d) (d_own d) (d_entries d) (d_ridx d)))
                             (c06_fdescs_rank backward ni w sizes es p)).
   { intros p. unfold c06_links_of_rank, c06_fdescs_rank. rewrite map_map. apply map_ext. intros [e f].
     destruct (c06_find_entry (e_q e) p es); reflexivity. }
@@ -236,7 +237,7 @@ Proof.
     rewrite forallb_forall in Sz. apply Sz. exact Hi.
 Qed.
 
-Lemma link_init_fixed_ends : forall buf s d f en ri, l_src (c06_link_init_fixed buf s d f en ri) = s /\ l_dst (c06_link_init_fixed buf s d f en ri) = d.
+Lemma link_init_fixed_ends : forall buf s d f o en ri, l_src (c06_link_init_fixed buf s d f o en ri) = s /\ l_dst (c06_link_init_fixed buf s d f o en ri) = d.
 Proof. intros. unfold c06_link_init_fixed. destruct (c06_send_setup buf _) as [[? ?] ?]. split; reflexivity. Qed.
 
 Lemma observe_eq_gen : forall (D : Type) (fs fd : D -> nat) (sp : D -> list c06_call) ds ls,
@@ -318,11 +319,18 @@ Lemma combine_map_l : forall (A B C : Type) (f : A -> C) (a : list A) (b : list 
   combine (map f a) b = map (fun ab : A * B => (f (fst ab), snd ab)) (combine a b).
 Proof. induction a; destruct b; simpl; auto. f_equal; auto. Qed.
 
+Lemma lookup_fixed_swap : forall p (l : list (c06_entry * nat)),
+  c06_lookup_fixed p (map (fun ab : c06_entry * nat => (c06_swap (fst ab), snd ab)) l) = c06_lookup_fixed p l.
+Proof. induction l as [|[e f] t IH]; simpl; auto. rewrite IH. reflexivity. Qed.
+
+Lemma own_fixed_swap : forall sizes es q p, c06_own_fixed true sizes es q p = c06_own_fixed false sizes (map c06_swap es) q p.
+Proof. intros. unfold c06_own_fixed. rewrite entries_of_swap, <- fixed_sizes_swap, combine_map_l, lookup_fixed_swap. reflexivity. Qed.
+
 Lemma links_of_rank_swap : forall variable buf ni w sizes es p,
   c06_links_of_rank variable true buf ni w sizes es p = c06_links_of_rank variable false buf ni w sizes (map c06_swap es) p.
 Proof.
   intros. unfold c06_links_of_rank. rewrite entries_of_swap, <- fixed_sizes_swap, combine_map_l, map_map.
-  apply map_ext. intros [e f]. simpl. rewrite find_entry_swap. destruct (c06_find_entry (e_q e) p es); reflexivity.
+  apply map_ext. intros [e f]. simpl. rewrite find_entry_swap, <- own_fixed_swap. destruct (c06_find_entry (e_q e) p es); reflexivity.
 Qed.
 
 Lemma P_backward_is_forward_transposed : forall variable fixnew buf ni w np sizes es,
